@@ -539,7 +539,9 @@ structure Crypto where
   mhash : Bytes → Bytes
   /-- HPKE key schedule: recipient public key, `info` ↦ context -/
   ctx : Bytes → Bytes → Nat
-  /-- HPKE under context `k`: seal / open -/
+  /-- the per-message key/nonce of a context: context, sequence number ↦ message context -/
+  seqCtx : Nat → Nat → Nat
+  /-- HPKE AEAD under message context `k`: seal / open -/
   hseal : Nat → Bytes → Bytes → Bytes
   hopen : Nat → Bytes → Bytes → Option Bytes
 
@@ -548,6 +550,48 @@ structure Crypto.Laws (C : Crypto) : Prop where
   hopen_other : ∀ k k' aad pt, k ≠ k' → C.hopen k' aad (C.hseal k aad pt) = none
   /-- a different key or a different `info` gives a different context -/
   ctx_inj : ∀ pk info pk' info', C.ctx pk info = C.ctx pk' info' → pk = pk' ∧ info = info'
+  /-- another context or another sequence number gives another nonce/key -/
+  seq_inj : ∀ a n a' n', C.seqCtx a n = C.seqCtx a' n' → a = a' ∧ n = n'
+
+/-! ### the client's HPKE sender across marshals; the SNI extension of a shared spec -/
+
+/-- an HPKE sender: its context and the sequence number of the next Seal. -/
+structure Sender where
+  ctx : Nat
+  seq : Nat
+  deriving DecidableEq, Repr
+
+def Sender.seal (C : Crypto) (s : Sender) (aad pt : Bytes) : Bytes × Sender :=
+  (C.hseal (C.seqCtx s.ctx s.seq) aad pt, { s with seq := s.seq + 1 })
+
+/-- `(*UConn).MarshalClientHello` with an ECH config list (and `clientHandshake` for HelloGolang):
+`makeClientHello()` sets up a **fresh** HPKE context on every call — whatever `uconn.echCtx` held
+(`prev`: from ApplyPreset or an earlier marshal) is replaced —, seals exactly once, and stores the new
+context for a possible second ClientHello. `fresh` is the context of this call's `SetupSender`. -/
+def marshalFirst (C : Crypto) (_prev : Option Sender) (fresh : Nat) (aad pt : Bytes) : Bytes × Option Sender :=
+  let r := Sender.seal C ⟨fresh, 0⟩ aad pt
+  (r.1, some r.2)
+
+/-- any number of marshals before the hello is sent (explicit `BuildHandshakeState`, edits followed by
+`MarshalClientHello`, then `Handshake`): payload of the last one and the stored sender. -/
+def marshalSeq (C : Crypto) : Option Sender → List (Nat × Bytes × Bytes) → Option Bytes × Option Sender
+  | st, [] => (none, st)
+  | st, [(f, aad, pt)] => let r := marshalFirst C st f aad pt; (some r.1, r.2)
+  | st, (f, aad, pt) :: m :: ms => marshalSeq C (marshalFirst C st f aad pt).2 (m :: ms)
+
+/-- `case *SNIExtension` of `ApplyPreset`: an empty name is filled from `Config.ServerName`; with an
+ECH config list the public name replaces whatever the (possibly shared, possibly pre-filled) extension
+object holds. Result = new content of the extension = outer server_name. -/
+def presetSni (specName cfgName : Bytes) (echPublic : Option Bytes) : Bytes :=
+  match echPublic with
+  | some p => p
+  | none => if specName.isEmpty then cfgName else specName
+
+/-- one spec object applied by a sequence of connections (their ServerName, their ECH public name if
+any): what its SNIExtension holds afterwards. -/
+def presetSniSeq (specName : Bytes) : List (Bytes × Option Bytes) → Bytes
+  | [] => specName
+  | (cfgName, ech) :: rest => presetSniSeq (presetSni specName cfgName ech) rest
 
 /-- what the ECH logic reads of a ServerHello / HelloRetryRequest. -/
 structure SHello where
@@ -577,16 +621,17 @@ def retryList (keys : List SKey) : Option Bytes :=
   let cs := keys.filter (·.sendAsRetry)
   if cs.isEmpty then none else some (vec16 (cs.flatMap (·.config)))
 
-/-- server side of one (non-HRR) ECH handshake: trial decryption over its keys, then either the
-decoded inner hello is used (accept) or the outer one (reject). -/
+/-- server side of one ECH ClientHello: trial decryption over its keys with a receiver at sequence
+number `seq` (0 for the first ClientHello: `SetupReceipient` is fresh; 1 for the hello after a
+HelloRetryRequest), then either the decoded inner hello is used (accept) or the outer one (reject). -/
 inductive SrvView where
   | accepted (inner : Hello)
   | rejected (retry : Option Bytes)
   | abort                        -- decode error → illegal_parameter
   deriving Repr
 
-def tryKeys (C : Crypto) (keys : List SKey) (outer : Hello) (aad payload : Bytes) : SrvView :=
-  match keys.findSome? (fun k => C.hopen (k.ctxOf C) aad payload) with
+def tryKeys (C : Crypto) (keys : List SKey) (seq : Nat) (outer : Hello) (aad payload : Bytes) : SrvView :=
+  match keys.findSome? (fun k => C.hopen (C.seqCtx (k.ctxOf C) seq) aad payload) with
   | none => .rejected (retryList keys)
   | some pt =>
     match decodeInner outer pt with
